@@ -64,6 +64,17 @@ theorem C11_skip_any (r : R) (n : Nat) (hI : RInv r) (hr : n ≤ r.bits.length) 
   have : rs.allBits = r.allBits := by unfold R.allBits R.byte; rw [hds, hms]
   rw [this]
 
+/-- **skip past the end**: a skip that does not fit reports an error — also when the cursor already stands at
+the end of the section, where `bufr_skip_bits` used to answer 0 for skips of 1 to 8 bits and move the cursor
+beyond the end (repaired in the library; `r.skip` in the stream). -/
+theorem C11_skip_past_end (r : R) (n : Nat) (hI : RInv r) (hn : 0 < n)
+    (hr : r.bits.length < n) (hpos : r.pos ≤ 8 * r.maxDataLen) : (r.skipBits n).1 = -1 := by
+  apply skipBits_past_end r n hI hn
+  rw [bits_length_r] at hr; omega
+
+/-- the case the original code got wrong: the cursor at the end of a 2-octet section, one more bit to skip -/
+example : (((R.ofBytes [0xaa, 0xbb]).skipBits 16).2.skipBits 1).1 = -1 := by decide
+
 /-- **fields**: any sequence of fields of 1..64 bits written starting at *any* bit offset (any
 writer state satisfying the invariant) is read back identically from the bytes produced. -/
 theorem C11_fields (w0 : W) (fs : List (Nat × Nat)) (hI : WInv w0) (hc : CapInv w0)
